@@ -245,4 +245,11 @@ def rule_d(ctx, rule='C17.d'):
                           'between')
 
 
-RULES = [('C17.a', rule_a), ('C17.b', rule_b), ('C17.c', rule_c), ('C17.d', rule_d)]
+def rule_plumbing(ctx):
+    """Reconnect closes the old connection: tasks stopped, old transport closed; hooks of the sender run per connection."""
+    from . import plumbing
+    plumbing.rule_close_transport(ctx, 'C17.b')
+    plumbing.rule_sender_hooks(ctx, 'C17.b')
+
+
+RULES = [('C17.a', rule_a), ('C17.b', rule_b), ('C17.c', rule_c), ('C17.d', rule_d), ('C17.b', rule_plumbing)]
